@@ -243,6 +243,20 @@ class LockModel:
             return 'NODE'
         return 'NODE'
 
+    def mask_check(self, fn, paths):
+        """C01.MASK: no decision is taken on a part of the shared-holder count"""
+        seen = set()
+        for p in paths:
+            for k, expr in partial_count_masks(p, self.layout):
+                if not (symbols(expr) & word_symbols(p)) or (k, fn['key']) in seen:
+                    continue
+                seen.add((k, fn['key']))
+                self.sink.bad('C01.MASK', '%s tests the lock word with mask %#x' % (short(fn['name']), k), '%s:%s' % (fn['file'], fn['line']),
+                              'the mask covers the shared-holder count %#x only partially: the decision depends on the parity / a truncated value of the count (%s)' %
+                              (self.layout.SMASK, show(expr)[:80]))
+        if not seen and paths:
+            self.sink.ok('C01.MASK', '%s masks applied to the lock word cover the shared-holder count entirely or not at all' % short(fn['name']), fn['file'], '')
+
     def word_events(self, path, fn, kinds=('LOCK',)):
         out = []
         for e in path.events:
@@ -259,6 +273,31 @@ def pointee(ct):
     t = _re.sub(r'\s*\*\s*(const|volatile|\s)*$', '', ct.strip())
     t = _re.sub(r'^(const|volatile)\s+', '', t)
     return t.strip()
+
+
+def partial_count_masks(path, layout, extra=()):
+    """constants K in `x & K` (inside the path's conditions and the given extra values) that cover the shared-holder
+    count only partially: a test or an update that looks at some bits of the counter decides on its parity or on a
+    truncated count.  Returns [(K, expression)]."""
+    out = []
+
+    def walk(v):
+        if not isinstance(v, tuple) or not v:
+            return
+        if v[0] == 'op' and len(v) == 5 and v[1] == '&':
+            for a, b in ((v[2], v[3]), (v[3], v[2])):
+                if is_const(b) and not is_const(a):
+                    k = b[1] & layout.SMASK
+                    if k and k != layout.SMASK and symbols(a):
+                        out.append((b[1], v))
+        for x in v:
+            if isinstance(x, tuple):
+                walk(x)
+    for c, _, _ in path.conds:
+        walk(c)
+    for v in extra:
+        walk(v)
+    return out
 
 
 def subst(v, sub):
@@ -601,6 +640,7 @@ class WordLockRules(LockModel):
                     p.maybe = (fz == 'maybe')
                     paths.append(p)
             fn['_feasible_paths'] = paths
+            self.mask_check(fn, paths)
             # every atomic site, for the C08 table
             for p in paths:
                 for e in p.events:
